@@ -222,6 +222,12 @@ def oracle(ctx):
         if canon.canon_result(x) != canon.canon_result(y):
             res.oracle_failures.append(dict(op=f'convert\t0\t0\t{hx(n)}\t{hx(b)}', input=dict(spelling1=a, spelling2=b),
                                             impl_output=core.dec_line(y)[:600], oracle_expectation='same service as for spelling1: ' + core.dec_line(x)[:600]))
+    # … whatever the size of what is ignored: the same unit as a real file with comment blocks, blank lines or one comment
+    # line beyond 64 KiB and beyond 1 MiB (through load_from_path, which the text-level operations do not use)
+    import filespell
+    ok = {b for (n, a, b), u in zip(cases, p1) if u.startswith('ok')}
+    big = [{os.path.basename(n): a} for n, a, b in cases if b in ok][:28 if ctx.thorough else 10]
+    filespell.compare(ctx, big, filespell.BIG_WAYS, 'C03 long files')
     # known finding KF-C03-1
     for k in ctx.known:
         ex = json.load(open(os.path.join(core.VERIF, 'known_findings.d', k['example'])))
